@@ -364,13 +364,106 @@ def run_edge(a):
     return {"harness_raised": "unknown edge kind"}
 
 
+def run_twins(a):
+    """two instances of NotificationHandler / RootsManager / CompletionProvider used alternately vs. each alone"""
+    kind = a["kind"]
+    if kind == "nh":
+        def one(regs, notes):
+            return [run_nh({"regs": regs, "defaults": a.get("defaults"), "n": n})["ran"] for n in notes]
+        from chuk_mcp.protocol.messages.notifications import NotificationHandler
+        ran = {0: [], 1: []}
+        hs = [NotificationHandler(), NotificationHandler()]
+
+        def mk(i, tag):
+            async def h(notification):
+                ran[i].append(tag)
+            return h
+        for i in (0, 1):
+            if a.get("defaults"):
+                hs[i].register_defaults()
+            for method, tag, _ in a["regs"][i]:
+                hs[i].register(R.s_(method), mk(i, tag))
+        seq = {0: [], 1: []}
+        for i, n in a["notes"]:
+            before = len(ran[i])
+            R._run(lambda i=i, n=n: hs[i].handle(copy.deepcopy(_py(n))))
+            seq[i].append(ran[i][before:])
+        alone = {i: one(a["regs"][i], [n for j, n in a["notes"] if j == i]) for i in (0, 1)}
+        return {"independent": all(seq[i] == alone[i] for i in (0, 1))}
+    if kind == "roots":
+        def run(steps_by):
+            return {i: run_roots({"op": "manager", "steps": st, "stream": True}) for i, st in steps_by.items()}
+        # interleaved on two managers in one event loop
+        import anyio
+        import math
+        from . import vloop
+        rs = _mod("roots.send_messages")
+        box = {0: [], 1: []}
+
+        async def main():
+            pairs = [anyio.create_memory_object_stream(math.inf) for _ in (0, 1)]
+            mgrs = [rs.RootsManager(p[0]) for p in pairs]
+            for i, step in a["steps"]:
+                if step[0] == "add":
+                    mgrs[i].add_root(rs.Root(uri=R.s_(step[1]), name=_py(step[2])))
+                elif step[0] == "remove":
+                    mgrs[i].remove_root(R.s_(step[1]))
+                elif step[0] == "clear":
+                    mgrs[i].clear()
+                await anyio.sleep(0)
+            await anyio.sleep(0.01)
+            for i in (0, 1):
+                n = 0
+                while True:
+                    try:
+                        pairs[i][1].receive_nowait()
+                        n += 1
+                    except Exception:  # noqa: BLE001
+                        break
+                box[i] = [n, sorted(r.uri for r in mgrs[i].get_roots())]
+
+        vloop.run(main)
+        alone = run({i: [st for j, st in a["steps"] if j == i] + [["list", {"i": 1}]] for i in (0, 1)})
+        ok = True
+        for i in (0, 1):
+            o = alone[i]
+            uris = []
+            if o["emitted"]:
+                res = {R.s_(k): v for k, v in o["emitted"][0]["dump"]["wire"]["o"]}.get("result")
+                roots = {R.s_(k): v for k, v in res["o"]}["roots"]["a"]
+                uris = sorted(R.s_({R.s_(k): v for k, v in r["o"]}["uri"]["s"]) for r in roots)
+            ok = ok and box[i] == [o["notifications"], uris]
+        return {"independent": ok}
+    if kind == "completion":
+        outs = []
+        for tags in ([1, 2], [1], [2]):
+            cm = _mod("completions.send_messages")
+            provs = {t: cm.CompletionProvider() for t in tags}
+            ran = []
+            for t, pr in provs.items():
+                async def h(n, v, t=t):
+                    ran.append(t)
+                    return [str(t)]
+                pr.register_resource_handler("file:", h)
+                pr.register_prompt_handler("p", h)
+            res = {}
+            for t, ref in a["calls"]:
+                if t in provs:
+                    r, exc = R._run(lambda t=t, ref=ref: provs[t].handle_completion_request(_py(ref), {"name": "a", "value": ""}))
+                    res.setdefault(t, []).append(None if r is None else list(r.values))
+            outs.append(res)
+        both, one, two = outs
+        return {"independent": both.get(1) == one.get(1) and both.get(2) == two.get(2)}
+    return {"harness_raised": "unknown twins kind"}
+
+
 def run_parse(a):
     """parse_message on an arbitrary (peer-supplied) object"""
     return R.parse_view(_py(a["v"]))
 
 
 RUNNERS = {"sender": run_sender, "handler": run_handler, "nh": run_nh, "predicates": run_predicates, "errdata": run_errdata,
-           "roots": run_roots, "sampling": run_sampling, "completion": run_completion, "enum": run_enum, "parse": run_parse, "edge": run_edge}
+           "roots": run_roots, "sampling": run_sampling, "completion": run_completion, "enum": run_enum, "parse": run_parse, "edge": run_edge, "twins": run_twins}
 
 
 def run_case(case):
